@@ -1353,7 +1353,7 @@ fn run_signal(tape: &mut Tape, which: &str, verbose: bool) -> Outcome {
         }
         // block_on a future pending on a flag; B sets the flag and wakes, possibly racing stop
         _ => {
-            let variant = choose_free(5); // 0: F,W  1: W,F,W  2: F,W racing stop+wakeup  3: stop+wakeup only  4: the future wakes itself inside its first poll
+            let variant = choose_free(6); // 0: F,W  1: W,F,W  2: F,W racing stop+wakeup  3: stop+wakeup only  4: the future wakes itself inside its first poll  5: stop+wakeup first, then F,W
             out.decoded.push(format!("block_on variant {variant}"));
             let flag = Arc::new(AtomicBool::new(false));
             let waker: Arc<Mutex<Option<std::task::Waker>>> = Arc::new(Mutex::new(None));
@@ -1414,6 +1414,22 @@ fn run_signal(tape: &mut Tape, which: &str, verbose: bool) -> Outcome {
                         do_wake(&lg);
                     }
                     4 => {}
+                    5 => {
+                        // the stop request comes first; the future becomes ready and is woken
+                        // afterwards: block_on must still return None
+                        sched::point("op");
+                        lg.lock().unwrap().push((stamp(), "stop.begin"));
+                        sig.stop();
+                        lg.lock().unwrap().push((stamp(), "stop.end"));
+                        sched::point("op");
+                        sig.wakeup();
+                        lg.lock().unwrap().push((stamp(), "stopwake.end"));
+                        sched::point("op");
+                        fl.store(true, Ordering::SeqCst);
+                        lg.lock().unwrap().push((stamp(), "flag"));
+                        sched::point("op");
+                        do_wake(&lg);
+                    }
                     2 => {
                         sched::point("op");
                         fl.store(true, Ordering::SeqCst);
@@ -1496,6 +1512,19 @@ fn run_signal(tape: &mut Tape, which: &str, verbose: bool) -> Outcome {
             let ret_at = l.iter().find(|e| e.1 == "block_on.returned").map(|e| e.0);
             if iters > 12 {
                 out.violations.push(viol(&["C11"], "block_on-spinning", &[], format!("block_on kept iterating ({iters})")));
+            }
+            // "None exactly when stop() was requested first": the stop request had returned before
+            // the future could possibly complete (its flag was set later)
+            let stop_end = l.iter().find(|e| e.1 == "stop.end").map(|e| e.0);
+            if let (Some(se), Some(f), Ok(Some(v)), true) = (stop_end, flag_at, &r, returned) {
+                if se < f {
+                    out.violations.push(viol(
+                        &["C11"],
+                        "block_on-some-after-stop",
+                        &[("variant", variant.to_string())],
+                        format!("stop() had returned (stamp {se}) before the future could complete (flag set at stamp {f}), yet block_on returned Some({v}); log={l:?}"),
+                    ));
+                }
             }
             match &r {
                 Err(e) => err = Some(format!("{e}")),
